@@ -888,6 +888,84 @@ fn gen_low_real(rng: &mut Rng) -> Option<Case> {
 }
 
 // =============================================================================================
+// corr: the MSG script table (sparse table of the meta -> written table + export indices of the debug info)
+
+fn entry_text(sc: &Sexp, fl: &Sexp) -> String {
+    let script = if sc.as_atom() == "z" { "0".to_string() } else { format!("\"s{}\"", sc.as_atom()) };
+    if fl.as_i64() != 0 { format!("{{script: {script}, flags: {}}}", fl.as_i64()) } else { format!("{{script: {script}}}") }
+}
+
+/// `(msgtab game hasflags len|- ((key script flags)...) (default script flags) nscripts)`; script `k` is called `s<k>` and
+/// its first instruction has time `k + 1` (that is how the table entries of the written file are told apart)
+fn eval_msgtab(case: &Sexp) -> Sexp {
+    let a = case.args();
+    let game = tc::game(a[0].as_atom());
+    let n = a[5].as_usize();
+    let Some((op, _)) = gensrc::signatures(game, LanguageKey::Msg).into_iter().find(|(_, s)| s.trim().is_empty()) else { return Sexp::atom("no-plain-opcode") };
+    let mut text = String::from("meta {\n    table: {\n");
+    for e in a[3].as_list() { let e = e.as_list(); text.push_str(&format!("        {}: {},\n", e[0].as_atom(), entry_text(&e[1], &e[2]))); }
+    let d = a[4].args();
+    if !(d[0].as_atom() == "z" && d[1].as_i64() == 0) || a[3].as_list().is_empty() { text.push_str(&format!("        default: {},\n", entry_text(&d[0], &d[1]))); }
+    text.push_str("    },\n");
+    if a[2].as_atom() != "-" { text.push_str(&format!("    table_len: {},\n", a[2].as_atom())); }
+    text.push_str("}\n");
+    for k in 0..n { text.push_str(&format!("script s{k} {{\n+{}:\n    ins_{op}();\n}}\n", k + 1)); }
+    let out = compile_dbg(Format::Msg, game, &[], text.as_bytes());
+    let Some(built) = out.value else { return Sexp::app("err", vec![Sexp::str(diag_class(&out.diagnostics))]) };
+    let lay = match layout::parse_file(Format::Msg, game, &built.bytes) { Ok(l) => l, Err(e) => return fail("written-binary-layout-unparsable", format!("{e}; source: {}", text.replace('\n', " "))) };
+    let has_flags = game >= Game::Th09;
+    let mut table = vec![];
+    for (k, &o) in lay.msg_table.iter().enumerate() {
+        let who = if o == 0 { Sexp::atom("z") } else {
+            match lay.scripts.iter().find(|(key, _)| *key == Key::MsgOffset(o)).and_then(|(_, s)| s.instrs.first()) {
+                Some(i) => Sexp::int(i.time as i64 - 1),
+                None => return fail("written-table-entry-points-nowhere", format!("entry {k} has offset {o}; source: {}", text.replace('\n', " "))),
+            }
+        };
+        let flags = if has_flags { le32(&built.bytes, 4 + 8 * k + 4).unwrap_or(0) as i64 } else { 0 };
+        table.push(Sexp::list(vec![who, Sexp::int(flags)]));
+    }
+    let mut export = vec![];
+    for d in built.dbg["exported-scripts"].as_array().cloned().unwrap_or_default() {
+        let name = d["name"].as_str().unwrap_or("?").to_string();
+        let k: i64 = name.trim_start_matches('s').parse().unwrap_or(-1);
+        let mut items = vec![Sexp::int(k)];
+        for i in d["exported-as"]["indices"].as_array().cloned().unwrap_or_default() { items.push(Sexp::int(i.as_i64().unwrap_or(-1))); }
+        export.push(Sexp::list(items));
+    }
+    Sexp::app("ok", vec![Sexp::app("table", table), Sexp::app("export", export)])
+}
+
+fn gen_msgtab(rng: &mut Rng) -> Case {
+    let game = *rng.pick(gensrc::GAMES_MSG);
+    let has_flags = game >= Game::Th09;
+    let n = 1 + rng.below(4);
+    let span = *rng.pick(&[1usize, 2, 4, 6, 10, 20]);
+    let mut keys: Vec<usize> = (0..span).filter(|_| rng.chance(1, 2)).collect();
+    if rng.chance(1, 8) { keys.push(span + rng.below(40)); }
+    if rng.chance(1, 3) { let k = keys.len(); for i in (1..k).rev() { let j = rng.below(i + 1); keys.swap(i, j); } }
+    let entry = |rng: &mut Rng| -> (Sexp, Sexp) {
+        let sc = if rng.chance(1, 8) { Sexp::atom("z") } else { Sexp::int(rng.below(n) as i64) };
+        let fl = if has_flags && rng.chance(1, 3) { Sexp::int(*rng.pick(&[1i64, 2, 3, 256, 0x7fffffff])) } else { Sexp::int(0) };
+        (sc, fl)
+    };
+    let table: Vec<Sexp> = keys.iter().map(|&k| { let (sc, fl) = entry(rng); Sexp::list(vec![Sexp::int(k as i64), sc, fl]) }).collect();
+    let named_default = rng.chance(1, 2);
+    let (dsc, dfl) = if named_default { entry(rng) } else { (Sexp::atom("z"), Sexp::int(0)) };
+    let maxk = keys.iter().max().map(|m| m + 1).unwrap_or(0);
+    let (len, how) = match rng.below(5) {
+        0 | 1 => (Sexp::atom("-"), "msgtab-implicit-len"),
+        2 => (Sexp::int((maxk + 1 + rng.below(6)) as i64), "msgtab-len-beyond-keys"),
+        3 => (Sexp::int(rng.below(maxk + 1) as i64), "msgtab-len-cuts-keys"),
+        _ => (Sexp::int(maxk as i64), "msgtab-len-exact"),
+    };
+    let gaps = keys.len() < maxk;
+    Case::corr(Sexp::app("msgtab", vec![Sexp::atom(format!("{game}")), Sexp::int(has_flags as i64), len, Sexp::list(table), Sexp::app("default", vec![dsc, dfl]), Sexp::int(n as i64)]))
+        .tag("msgtab").tag(how).tag(if named_default { "msgtab-named-default" } else { "msgtab-zero-default" }).tag(if gaps { "msgtab-gaps" } else { "msgtab-no-gaps" })
+        .trivial(keys.is_empty() && !named_default)
+}
+
+// =============================================================================================
 
 fn judge_c18(result: &Sexp) -> Option<Failure> {
     match result.head() {
@@ -905,7 +983,7 @@ fn judge_c18(result: &Sexp) -> Option<Failure> {
 impl Prop for C18 {
     fn id(&self) -> &'static str { "C18" }
     fn relation(&self) -> &'static str {
-        "low: (debug-info instruction offsets, labels (name, offset, time), end offset, emitted instructions (time, opcode, argument bytes)) of the real Lowerer — under a TestLanguage with generated signatures, and through the real compiler + written binary of every format with the game's own signatures — == Lean `Offsets.lowerTail` (gather_label_info with dummy substitution, encode_labels, second encoding pass); errors by diagnostic class"
+        "msgtab: (written MSG script table (script or none, flags per entry), export indices of every script in the debug info) of the real compiler for a sparse table (explicit keys in any order, named or empty default, implicit / exact / longer / cutting table_len) == Lean `MsgTable.densify` / `written` / `exports`. low: (debug-info instruction offsets, labels (name, offset, time), end offset, emitted instructions (time, opcode, argument bytes)) of the real Lowerer — under a TestLanguage with generated signatures, and through the real compiler + written binary of every format with the game's own signatures — == Lean `Offsets.lowerTail` (gather_label_info with dummy substitution, encode_labels, second encoding pass); errors by diagnostic class"
     }
     fn rule(&self) -> &'static str {
         "low: straight-line streams of 1-10 statements over 1-4 signatures (generated ones incl. strings of every size kind / mask / furibug, jumps, narrow integers; or drawn from the game's table, favouring jumps and strings), labels at the start / between / doubled / at the end, offsetof/timeof arguments in jump, wide and narrow integer positions, @blob calls, absolute time labels, occasional misfits, duplicate and undefined labels; non-trivial = at least one instruction. prog: generated programs of ANM / MSG / ending MSG / STD / old ECL (subs and timelines) of every supported game: string instructions with furigana prefixes, labels at block edges and at the script end, loops, times, if/else, gotos, locals and sub parameters used in marker instructions, expression temporaries, difficulty switches and difficulty labels, const definitions (forward references, chains); MSG script tables with gaps, a named `default` entry and an explicit `table_len` (the export indices of every script must be exactly the entries of the written table that point at it); stack ECL (TH10-TH17) subs of raw instructions with per-difficulty string and number arguments (copies of different sizes), labels and offsetof/timeof jumps; debug info written by prepare_and_write_debug_info vs the written binary parsed by an independent layout parser; non-trivial = the program compiled and at least one script has an instruction; distinct by case text"
@@ -913,7 +991,8 @@ impl Prop for C18 {
     fn theorems(&self) -> &'static [&'static str] {
         &["TruthModel.C18.dummy_same_size", "TruthModel.C18.offsets_stable", "TruthModel.C18.label_on_boundary", "TruthModel.C18.end_is_length", "TruthModel.C18.instr_count",
           "TruthModel.C18.label_time", "TruthModel.C18.label_args_use_recorded", "TruthModel.C18.written_layout", "TruthModel.C18.second_pass_ok_of_wide", "TruthModel.C18.no_panic_after_gather",
-          "TruthModel.C18.second_pass_reports", "TruthModel.C18.index20_no_assert", "TruthModel.C18.encodeLabels_no_panic"]
+          "TruthModel.C18.second_pass_reports", "TruthModel.C18.index20_no_assert", "TruthModel.C18.encodeLabels_no_panic",
+          "TruthModel.C18.msg_export_indices", "TruthModel.C18.default_entry_listed", "TruthModel.C18.entry_beyond_len_not_listed", "TruthModel.C18.exports_complete", "TruthModel.C18.exports_sound"]
     }
     fn timeout_secs(&self) -> u64 { 60 }
 
@@ -927,12 +1006,15 @@ impl Prop for C18 {
         while k < n_real { if let Some(c) = gen_low_real(&mut r) { out.push(c); k += 1; } }
         let mut r = rng.fork(3);
         for _ in 0..n_prog { out.push(gen_prog(&mut r)); }
+        let mut r = rng.fork(4);
+        for _ in 0..n_test / 2 { out.push(gen_msgtab(&mut r)); }
         out
     }
 
     fn eval(&self, case: &Sexp) -> Sexp {
         match case.head() {
             Some("low") => eval_low(case),
+            Some("msgtab") => eval_msgtab(case),
             Some("prog") => {
                 let a = case.args();
                 let maps: Vec<String> = a[2].as_list().iter().map(|m| m.as_atom().to_string()).collect();
